@@ -153,10 +153,15 @@ def write_real(df, out_chunk=None, in_chunk=None, data=None, path=None, **kw):
     """DLISFile.write with the taps on; returns dict(file, recs=[(eflr, ty, body)...], snaps)."""
     path = path or tmp_path()
     vrl = df.storage_unit_label.max_record_length
-    out_chunk = out_chunk if out_chunk is not None else max(vrl, 1 << 16)
+    # out_chunk None: a small explicit buffer (the library's own default of 2**32 bytes allocates 4 GiB per write: it is used once,
+    # in the thorough tier of C10, through out_chunk='library-default')
+    if out_chunk == 'library-default':
+        okw = {}
+    else:
+        okw = {'output_chunk_size': out_chunk if out_chunk is not None else max(vrl, 1 << 16)}
     try:
         with lr_tap() as recs, flush_tap() as snaps:
-            df.write(path, input_chunk_size=in_chunk, output_chunk_size=out_chunk, data=data, **kw)
+            df.write(path, input_chunk_size=in_chunk, data=data, **okw, **kw)
         with open(path, 'rb') as f:
             data_b = f.read()
         return dict(file=data_b, recs=[(e, t[0] if t else -1, b) for e, t, b in recs], snaps=[s for _, s in snaps],
